@@ -820,6 +820,11 @@ func (p *pp) printArg(arg interface{}, verb rune) {
 func (p *pp) printValue(value reflect.Value, verb rune, depth int) {
 	// Handle values with special methods if not already handled by printArg (depth == 0).
 	if depth > 0 && value.IsValid() {
+		// CUSTOM: look through interface values, so that the checks
+		// below see the dynamic type (wrappers, registered safe types).
+		if value.Kind() == reflect.Interface && !value.IsNil() {
+			value = value.Elem()
+		}
 		t := value.Type()
 		if p.handleSpecialValues(value, t, verb, depth) {
 			return
